@@ -53,7 +53,7 @@ func init() {
 	Properties["C07"] = PropSpec{
 		Rules: []Rule{
 			FieldFed,
-			RefWalk,
+			CtorRecursion, RefWalk,
 			PanicInventory(c07Entries, []DynEntry{
 				{Func: "(*SchemaValidator).Validate", DataArg: 1},
 				{Func: "(*ParamValidator).Validate", DataArg: 1},
